@@ -14,7 +14,7 @@ import numpy as np
 
 from .common import (BaseWorld, Violation, HarnessError, Discard, choose_weighted, enc_label, dec_label, enc_key, dec_key, sort_key)
 from .refpoly import RefPoly, BOOL, SPIN, frac
-from .refcons import RefConstraints, check_penalty, holds, holds_vec, RELS
+from .refcons import RefConstraints, check_penalty, holds, holds_vec, RELS, effective_bounds
 
 # A genuine, unrepaired defect (see known_findings.json) gets its own oracle id so that it is matched precisely.
 KF_SOLVE = "solve_bruteforce_keyerror_on_constraint_only_variable"
@@ -247,7 +247,11 @@ class World(BaseWorld):
         span_hi = max(hi, frac(op["bounds"][1])) if op.get("bounds") and op["bounds"][1] is not None else hi
         if rel != "eq" and not op["log_trick"] and span_hi - span_lo > 7:
             kw["log_trick"] = True
-        if span_hi - span_lo > 64:
+        elo, ehi = effective_bounds(P, op.get("bounds"))
+        mag = max(abs(elo), abs(ehi), ehi - elo)      # unary slack: one ancilla per unit of min_val / range
+        if mag > 8 and rel != "eq":
+            kw["log_trick"] = True
+        if span_hi - span_lo > 64 or mag > 200:
             return "skipped"
         if self.n_vars_total() > 11:
             return "skipped-large"
